@@ -113,6 +113,7 @@ class _AsyncThrottle[**Args, Result]:
 
     async def __call__(
         self,
+        /,
         *args: Args.args,
         **kwargs: Args.kwargs,
     ) -> Result:
